@@ -79,8 +79,9 @@ Example ex_fault_ctor :
     (exec 4 6 o_new [OAppend [1;2]%N], RExn OSFault).
 Proof. vm_compute. repeat split. Qed.
 
-(* the same history with the copy loop's write failing: the BytesIO is left at its end *)
+(* the same history with the copy loop's write failing: the BytesIO keeps its place
+   (finally: from_file.seek(read_pos), /repo commit c9585b7) *)
 Example ex_fault_copy_write :
   step_f FCopyWrite 4 6 (exec 4 6 o_new [OAppend [1;2;3;4;5]%N]) (OAppend [6;7]%N) =
-    (mkobuf (Some (mkfbuf KBio (mkfile [1;2;3;4;5;6;7]%N 7 false) 7)) [] false, RExn OSFault).
+    (mkobuf (Some (mkfbuf KBio (mkfile [1;2;3;4;5;6;7]%N 0 false) 7)) [] false, RExn OSFault).
 Proof. vm_compute. reflexivity. Qed.
